@@ -318,6 +318,8 @@ func Run(c string) string {
 		return "ok " + optHex(ov, ook) + " " + optHex(iv, iok) + " " + st
 	case "history":
 		return runHistory(f)
+	case "multi":
+		return runMulti(f)
 	}
 	panic("unknown case " + c)
 }
@@ -486,6 +488,182 @@ func CheckHistory(c, res string) string {
 	return ""
 }
 
+// ---------------------------------------------------------------- several programs from the real producers
+
+// Source says how a program object is produced: by acc.Decompile of an op list or by
+// parse + acc.Translate of a script.
+type Source struct {
+	Ops    addchain.Program
+	Script string
+}
+
+func (s Source) encode() string {
+	if s.Script != "" {
+		return "s" + lib.Bytes([]byte(s.Script))
+	}
+	ss := make([]string, len(s.Ops))
+	for k, op := range s.Ops {
+		ss[k] = fmt.Sprintf("%d+%d", op.I, op.J)
+	}
+	return "o" + strings.Join(ss, ",")
+}
+
+func decodeSource(t string) Source {
+	if t[0] == 's' {
+		return Source{Script: string(lib.ParseBytes(t[1:]))}
+	}
+	var ops addchain.Program
+	for _, f := range strings.Split(t[1:], ",") {
+		ij := strings.Split(f, "+")
+		ops = append(ops, addchain.Op{I: lib.Atoi(ij[0]), J: lib.Atoi(ij[1])})
+	}
+	return Source{Ops: ops}
+}
+
+// Produce builds the program object with the real producer.
+func (s Source) Produce() (*ir.Program, bool) {
+	if s.Script != "" {
+		ch, err := parse.String(s.Script)
+		if err != nil {
+			return nil, false
+		}
+		r, err := acc.Translate(ch)
+		return r, err == nil
+	}
+	r, err := acc.Decompile(s.Ops)
+	return r, err == nil
+}
+
+// Event: the allocator with configuration C runs on program K.
+type Event struct{ K, C int }
+
+// MultiCase builds a multi case line; ok is false when a producer refuses its source.
+func MultiCase(srcs []Source, cfgs []Cfg, evs []Event) (string, bool) {
+	ss, irs, cs, es := []string{}, []string{}, []string{}, []string{}
+	for _, s := range srcs {
+		r, ok := s.Produce()
+		if !ok || len(r.Instructions) == 0 {
+			return "", false
+		}
+		ss = append(ss, s.encode())
+		irs = append(irs, Encode(FromIR(r)))
+	}
+	for _, c := range cfgs {
+		cs = append(cs, encCfg(c))
+	}
+	for _, e := range evs {
+		es = append(es, fmt.Sprintf("%d:%d", e.K, e.C))
+	}
+	return "multi " + strings.Join(ss, "|") + " " + strings.Join(irs, "|") + " " + strings.Join(cs, "|") + " " + strings.Join(es, ","), true
+}
+
+type multiCase struct {
+	srcs []Source
+	irs  []Prog
+	cfgs []Cfg
+	evs  []Event
+}
+
+func parseMulti(f []string) multiCase {
+	var m multiCase
+	for _, t := range strings.Split(f[1], "|") {
+		m.srcs = append(m.srcs, decodeSource(t))
+	}
+	for _, t := range strings.Split(f[2], "|") {
+		m.irs = append(m.irs, Decode(t))
+	}
+	for _, t := range strings.Split(f[3], "|") {
+		m.cfgs = append(m.cfgs, decCfg(t))
+	}
+	for _, t := range strings.Split(f[4], ",") {
+		kc := strings.Split(t, ":")
+		m.evs = append(m.evs, Event{lib.Atoi(kc[0]), lib.Atoi(kc[1])})
+	}
+	return m
+}
+
+func runMulti(f []string) string {
+	m := parseMulti(f)
+	progs := make([]*ir.Program, len(m.srcs))
+	for k, s := range m.srcs {
+		r, ok := s.Produce()
+		if !ok || Encode(FromIR(r)) != Encode(m.irs[k]) {
+			return "err producer"
+		}
+		progs[k] = r
+	}
+	last := make([]int, len(progs))
+	for k := range last {
+		last[k] = -1
+	}
+	for _, e := range m.evs {
+		c := m.cfgs[e.C]
+		if err := (pass.Allocator{Input: c.In, Output: c.Out, Format: c.Format}).Execute(progs[e.K]); err != nil {
+			return "err " + allocErrClass(err)
+		}
+		last[e.K] = e.C
+	}
+	// every program re-examined after all allocations
+	out := make([]string, len(progs))
+	for k, r := range progs {
+		if last[k] < 0 {
+			panic("harness: multi case leaves a program unallocated")
+		}
+		c := m.cfgs[last[k]]
+		out[k] = Encode(FromIR(r)) + "~" + encNames(r.Temporaries) + "~" + interpOut(r, c, false) + "~" + interpOut(r, c, true)
+	}
+	return "ok " + strings.Join(out, "|")
+}
+
+// CheckMulti: at the end every program still satisfies the whole of C05 (and the C17 bound) for the
+// configuration last applied to it, whatever was allocated afterwards.
+func CheckMulti(c, res string) string {
+	if strings.HasPrefix(res, "panic") {
+		return "multi panicked: " + res
+	}
+	f := strings.Split(c, " ")
+	m := parseMulti(f)
+	last := make([]int, len(m.irs))
+	for _, e := range m.evs {
+		last[e.K] = e.C
+	}
+	named := true
+	for _, p := range m.irs {
+		named = named && ConsistentNames(p)
+	}
+	if !strings.HasPrefix(res, "ok ") {
+		if named {
+			return "allocation of produced programs failed: " + res
+		}
+		return ""
+	}
+	parts := strings.Split(strings.TrimPrefix(res, "ok "), "|")
+	if len(parts) != len(m.irs) {
+		return "wrong number of programs in the result"
+	}
+	for k, part := range parts {
+		g := strings.Split(part, "~")
+		cfg := m.cfgs[last[k]]
+		p := m.irs[k]
+		if msg := CheckAllocation(AllocCase(p, cfg), "ok "+g[0]+" "+g[1], true); msg != "" {
+			return fmt.Sprintf("program %d at the end: %s", k, msg)
+		}
+		distinct := cfg.In != "" && cfg.Out != "" && cfg.In != cfg.Out
+		for _, t := range decNames(g[1]) {
+			if t == cfg.In || t == cfg.Out {
+				distinct = false
+			}
+		}
+		if WellFormed(p) && ConsistentNames(p) && distinct {
+			wantv := lib.Hex(ChainValues(p, big.NewInt(1))[p[len(p)-1].Out.Idx])
+			if g[2] != wantv || g[3] != wantv {
+				return fmt.Sprintf("program %d at the end: interpreter %s / %s, last chain element %s", k, g[2], g[3], wantv)
+			}
+		}
+	}
+	return ""
+}
+
 // Histories are the operation sequences of the history stream.
 var Histories = [][]string{
 	{"c", "b"}, {"i", "c", "b"}, {"r", "c", "b"}, {"a", "c", "b"}, {"i", "r", "a", "c", "b"},
@@ -572,6 +750,13 @@ func Neighbours(c string, r *lib.Rand, emit func(string)) {
 		switch f[0] {
 		case "allocate", "interp":
 			g[1] = Encode(q)
+			emit(strings.Join(g, " "))
+		case "multi":
+			// same programs, another order of the same events
+			evs := strings.Split(f[4], ",")
+			i, j := r.Intn(len(evs)), r.Intn(len(evs))
+			evs[i], evs[j] = evs[j], evs[i]
+			g[4] = strings.Join(evs, ",")
 			emit(strings.Join(g, " "))
 		case "history":
 			g[1] = Encode(Strip(q))
